@@ -3,6 +3,7 @@ package compiler
 import (
 	"fmt"
 	"strconv"
+	"strings"
 
 	"github.com/grafana/cog/internal/ast"
 	"github.com/grafana/cog/internal/tools"
@@ -57,7 +58,7 @@ func (pass *RenameNumericEnumValues) processEnum(def ast.Type) (ast.Type, bool) 
 	changed := false
 
 	for i, val := range def.AsEnum().Values {
-		if _, err := strconv.Atoi(val.Name); err != nil {
+		if !pass.isNumeric(val.Name) {
 			continue
 		}
 
@@ -68,10 +69,27 @@ func (pass *RenameNumericEnumValues) processEnum(def ast.Type) (ast.Type, bool) 
 	return def, changed
 }
 
-func (pass *RenameNumericEnumValues) enumMemberNameFromValue(member ast.EnumValue) string {
-	if member.Name[0] == '-' {
-		return tools.UpperCamelCase(fmt.Sprintf("negative%s", member.Name[1:]))
+// isNumeric tells whether the name is the literal of a number: `1`, `-2`, `1.5`, `1e3`.
+func (pass *RenameNumericEnumValues) isNumeric(name string) bool {
+	if name == "" {
+		return false
+	}
+	if first := name[0]; (first < '0' || first > '9') && first != '-' && first != '+' && first != '.' {
+		// ParseFloat also accepts "Inf", "NaN", …
+		return false
 	}
 
-	return "N" + tools.UpperCamelCase(member.Name)
+	_, err := strconv.ParseFloat(name, 64)
+	return err == nil
+}
+
+func (pass *RenameNumericEnumValues) enumMemberNameFromValue(member ast.EnumValue) string {
+	// `1.0` and `10` have to stay distinct
+	name := strings.ReplaceAll(member.Name, ".", "Dot")
+
+	if name[0] == '-' {
+		return tools.UpperCamelCase(fmt.Sprintf("negative%s", name[1:]))
+	}
+
+	return "N" + tools.UpperCamelCase(strings.TrimPrefix(name, "+"))
 }
